@@ -291,6 +291,70 @@ pub fn run(run: &Run) {
             }
         }
     });
+    {
+        // very long transparent runs next to ZWNJ, labels beyond 2^20 code points, every mark class next to cased / compatibility /
+        // decomposable characters: through the entry points that reach the rules (light: a handful of calls per string)
+        use precis_core::profile::Rules;
+        let extra: Vec<usize> = run.pick(vec![], vec![262_144]);
+        let mut labels = super::pipe::zwnj_huge_run_labels(&extra);
+        labels.extend(super::pipe::huge_whole_label_labels(&[]));
+        let heavy = labels.len();
+        for w in 0..3 {
+            labels.extend(super::pipe::mark_neighbour_strings(w));
+        }
+        let labels_ref = &labels;
+        run.par("huge_labels_and_mark_neighbours_light", true, |tid, n, l| {
+            for (i, s) in labels_ref.iter().enumerate() {
+                if i % n != tid {
+                    continue;
+                }
+                if run.stopped() {
+                    return;
+                }
+                l.cases += 1;
+                let case = json!({"op": "all_ops", "s": jstr(s), "t": jstr("x")});
+                breadcrumb(&case);
+                let r = guard(|| {
+                    let mut sink = 0usize;
+                    if i < heavy {
+                        // on a thread with the default stack size, as a caller's thread would have (the checker's own threads have 64 MiB)
+                        let inner = std::thread::scope(|sc| {
+                            std::thread::Builder::new()
+                                .spawn_scoped(sc, || {
+                                    let mut sink = 0usize;
+                                    if let Some(z) = s.chars().position(|c| c == '\u{200c}') {
+                                        sink += precis_core::context::rule_zero_width_nonjoiner(s, z).is_ok() as usize;
+                                    }
+                                    sink += IdentifierClass::default().allows(s).is_ok() as usize;
+                                    touch(OpaqueString::new().prepare(s.as_str()), &mut sink);
+                                    sink
+                                })
+                                .expect("spawn")
+                                .join()
+                        });
+                        match inner {
+                            Ok(n) => sink += n,
+                            Err(e) => std::panic::resume_unwind(e),
+                        }
+                    } else {
+                        touch(UsernameCaseMapped::new().enforce(s.as_str()), &mut sink);
+                        touch(UsernameCasePreserved::new().enforce(s.as_str()), &mut sink);
+                        touch(OpaqueString::new().enforce(s.as_str()), &mut sink);
+                        touch(Nickname::new().enforce(s.as_str()), &mut sink);
+                        touch(Nickname::new().case_mapping_rule(s.as_str()), &mut sink);
+                        touchb(Nickname::new().compare(s.as_str(), "x"), &mut sink);
+                        touchb(UsernameCaseMapped::new().compare(s.as_str(), "x"), &mut sink);
+                    }
+                    std::hint::black_box(sink);
+                });
+                l.evals_n(if i < heavy { 3 } else { 7 });
+                if let Err(p) = r {
+                    run.violate(Violation::new(case, "every public operation returns Ok or a typed error", format!("panic: {p}")));
+                    return;
+                }
+            }
+        });
+    }
     run.prop("random_strings", run.pick(500_000, 30_000_000), || (gens::gstring(), gens::gstring()), |(s, t), l| check_string(s, t, l));
     run.par("numeric_boundaries", true, |tid, _n, l| {
         if tid != 0 {
@@ -323,7 +387,8 @@ pub fn replay(_run: &Run, case: &Value) -> Check {
         _ => {
             let s = jget_str(case, "s").or_else(|| jget_str(case, "input")).expect("s");
             let t = jget_str(case, "t").unwrap_or_else(|| s.chars().rev().collect());
-            check_string(&s, &t, &mut l)
+            // on a thread with the default stack size (a stack overflow found there must reproduce)
+            std::thread::scope(|sc| std::thread::Builder::new().spawn_scoped(sc, || check_string(&s, &t, &mut l)).expect("spawn").join()).unwrap_or_else(|e| std::panic::resume_unwind(e))
         }
     }
 }
